@@ -21,6 +21,9 @@ EXPLANATION = (
     'the executor hands it to the comparison; the replay of a recorded '
     'query compares result and exception class. Decides what each mode '
     'observes; memo correctness over a history is not decided.')
+# round 3/4 additions
+EXPLANATION += (
+    ' R13.3 also requires a collision-resistant digest (whitelist) and no unguarded scratch state on the shared executor.')
 
 
 def _ex(ctx, name):
